@@ -8,6 +8,7 @@
 From Coq Require Import String.
 From MW Require Import Model.Base Model.F64 Model.Num Model.NumFmt Model.Datum Model.Lex Model.Parse
   Model.TransformDef Model.Transform Model.VmTypes Model.Heap Model.VmBase Model.Compile Model.Vm.
+From MW Require Model.Ratio32 Model.NumArith Model.NumProc Model.Str.
 From MW Require Gen.Builtins Gen.Prelude.
 Open Scope N_scope.
 
@@ -107,7 +108,124 @@ Definition tmp_builtin (b : N) : M vcell :=
   else if text_is n ">=" then dom argc <- pop_argc 1 None; dom l <- pop_ints (N.to_nat argc) []; ret (bool_v (chain Z.geb l))
   else panic 99.     (* builtin not modelled yet *)
 
-Definition other_builtin : N -> M vcell := tmp_builtin.
+(* ------------------------------------------ builtins of the work packages *)
+(* builtin/number.rs at the value level (Model/NumArith.v, package "num"): pop argc
+   and the arguments (dereferenced, as pop_number does), run the value-level model
+   under the Debug profile, box the result.  A failing builtin leaves part of its
+   arguments on the stack in the Rust; the error path of run_count wipes the stack
+   (fix f6f5af0), so the difference is not observable. *)
+Fixpoint pop_values (k : nat) (acc : list vcell) : M (list vcell) :=
+  match k with
+  | O => ret acc
+  | S k' => dom v <- pop_value; pop_values k' (v :: acc)
+  end.
+Definition to_arg (v : vcell) : NumArith.arg :=
+  match v with VNum n => NumArith.ANum n | _ => NumArith.AOther end.
+Definition of_res (r : NumArith.res) : vcell :=
+  match r with NumArith.RNum n => VNum n | NumArith.RBool b => VBool b end.
+Definition num_builtin (f : Num.profile -> list NumArith.arg -> out NumArith.res) : M vcell :=
+  dom a <- pop_raw; dom argc <- as_argc a;
+  dom vs <- pop_values (N.to_nat argc) [];
+  dom r <- lift (f Debug (map to_arg vs));
+  ret (of_res r).
+
+(* number->string / string->number (Model/NumProc.v, package "numfmt") work on cells *)
+Fixpoint pop_cells (k : nat) (acc : list cell) : M (list cell) :=
+  match k with
+  | O => ret acc
+  | S k' => dom v <- pop_raw; dom c <- to_cell v; pop_cells k' (c :: acc)
+  end.
+Definition cell_builtin (f : list cell -> out cell) : M vcell :=
+  dom a <- pop_raw; dom argc <- as_argc a;
+  dom cs <- pop_cells (N.to_nat argc) [];
+  dom r <- lift (f cs);
+  maybe_put_cell_m r.
+
+Definition pkg_builtin (b : N) : M vcell :=
+  let n := builtin_name b in
+  (* ---- number.rs *)
+  if text_is n "+" then num_builtin NumArith.b_plus
+  else if text_is n "*" then num_builtin NumArith.b_multiply
+  else if text_is n "-" then num_builtin NumArith.b_minus
+  else if text_is n "/" then num_builtin NumArith.b_divide
+  else if text_is n "=" then num_builtin (NumArith.b_num_comp NumArith.CEq)
+  else if text_is n "<" then num_builtin (NumArith.b_num_comp NumArith.CLt)
+  else if text_is n ">" then num_builtin (NumArith.b_num_comp NumArith.CGt)
+  else if text_is n "<=" then num_builtin (NumArith.b_num_comp NumArith.CLe)
+  else if text_is n ">=" then num_builtin (NumArith.b_num_comp NumArith.CGe)
+  else if text_is n "zero?" then num_builtin (NumArith.b_upred NumArith.PZero)
+  else if text_is n "positive?" then num_builtin (NumArith.b_upred NumArith.PPositive)
+  else if text_is n "negative?" then num_builtin (NumArith.b_upred NumArith.PNegative)
+  else if text_is n "odd?" then num_builtin (NumArith.b_upred NumArith.POdd)
+  else if text_is n "even?" then num_builtin (NumArith.b_upred NumArith.PEven)
+  else if text_is n "quotient" then num_builtin (NumArith.b_intdiv NumArith.IQuotient)
+  else if text_is n "remainder" || text_is n "%" then num_builtin (NumArith.b_intdiv NumArith.IRemainder)
+  else if text_is n "modulo" then num_builtin (NumArith.b_intdiv NumArith.IModulo)
+  else if text_is n "expt" || text_is n "pow" then num_builtin NumArith.b_expt
+  else if text_is n "abs" then num_builtin (NumArith.b_unary NumArith.UAbs)
+  else if text_is n "floor" then num_builtin (NumArith.b_unary NumArith.UFloor)
+  else if text_is n "ceiling" then num_builtin (NumArith.b_unary NumArith.UCeiling)
+  else if text_is n "truncate" then num_builtin (NumArith.b_unary NumArith.UTruncate)
+  else if text_is n "round" then num_builtin (NumArith.b_unary NumArith.URound)
+  else if text_is n "numerator" then num_builtin (NumArith.b_unary NumArith.UNumerator)
+  else if text_is n "denominator" then num_builtin (NumArith.b_unary NumArith.UDenominator)
+  else if text_is n "exact->inexact" then num_builtin (NumArith.b_unary NumArith.UExactInexact)
+  else if text_is n "inexact->exact" then num_builtin (NumArith.b_unary NumArith.UInexactExact)
+  else if text_is n "min" then num_builtin (NumArith.b_minmax false)
+  else if text_is n "max" then num_builtin (NumArith.b_minmax true)
+  else if text_is n "number->string" then cell_builtin NumProc.number_string
+  else if text_is n "string->number" then cell_builtin NumProc.string_number
+  (* ---- string.rs / char.rs (Model/Str.v, package "str") *)
+  else if text_is n "string-length" then Str.string_length
+  else if text_is n "string-ref" then Str.string_ref
+  else if text_is n "string-set!" then Str.string_set
+  else if text_is n "string-copy" then Str.string_copy
+  else if text_is n "string-fill!" then Str.string_fill
+  else if text_is n "string->list" then Str.string_list
+  else if text_is n "string->vector" then Str.string_vector
+  else if text_is n "vector->string" then Str.vector_string
+  else if text_is n "list->string" then Str.list_string
+  else if text_is n "string" then Str.string_
+  else if text_is n "make-string" then Str.make_string
+  else if text_is n "string-append" then Str.string_append
+  else if text_is n "string=?" then Str.string_cmp Str.CEq
+  else if text_is n "string<?" then Str.string_cmp Str.CLt
+  else if text_is n "string>?" then Str.string_cmp Str.CGt
+  else if text_is n "string<=?" then Str.string_cmp Str.CLe
+  else if text_is n "string>=?" then Str.string_cmp Str.CGe
+  else if text_is n "string-ci=?" then Str.string_ci_cmp Str.CEq
+  else if text_is n "string-ci<?" then Str.string_ci_cmp Str.CLt
+  else if text_is n "string-ci>?" then Str.string_ci_cmp Str.CGt
+  else if text_is n "string-ci<=?" then Str.string_ci_cmp Str.CLe
+  else if text_is n "string-ci>=?" then Str.string_ci_cmp Str.CGe
+  else if text_is n "string-upcase" then Str.string_upcase
+  else if text_is n "string-downcase" then Str.string_downcase
+  else if text_is n "string-foldcase" then Str.string_foldcase
+  else if text_is n "char->integer" then Str.char_to_integer
+  else if text_is n "integer->char" then Str.integer_to_char
+  else if text_is n "char-alphabetic?" then Str.char_is_alphabetic
+  else if text_is n "char-numeric?" then Str.char_is_numeric
+  else if text_is n "char-whitespace?" then Str.char_is_whitespace
+  else if text_is n "char-upper-case?" then Str.char_is_upper_case
+  else if text_is n "char-lower-case?" then Str.char_is_lower_case
+  else if text_is n "char-upcase" then Str.char_upcase
+  else if text_is n "char-downcase" then Str.char_downcase
+  else if text_is n "char-foldcase" then Str.char_foldcase
+  else if text_is n "digit-value" then Str.digit_value
+  else if text_is n "char=?" then Str.char_cmp Str.CEq
+  else if text_is n "char<?" then Str.char_cmp Str.CLt
+  else if text_is n "char>?" then Str.char_cmp Str.CGt
+  else if text_is n "char<=?" then Str.char_cmp Str.CLe
+  else if text_is n "char>=?" then Str.char_cmp Str.CGe
+  else if text_is n "char-ci=?" then Str.char_ci_cmp Str.CEq
+  else if text_is n "char-ci<?" then Str.char_ci_cmp Str.CLt
+  else if text_is n "char-ci>?" then Str.char_ci_cmp Str.CGt
+  else if text_is n "char-ci<=?" then Str.char_ci_cmp Str.CLe
+  else if text_is n "char-ci>=?" then Str.char_ci_cmp Str.CGe
+  (* ---- list.rs / vector.rs / predicate.rs: temporary models until package "lv" lands *)
+  else tmp_builtin b.
+
+Definition other_builtin : N -> M vcell := pkg_builtin.
 
 (* ------------------------------------------------------- load_builtins *)
 (* builtin/mod.rs:48-57: put the BuiltInProc, intern the symbol, bind the slot *)
